@@ -363,8 +363,23 @@ func (fc *FnCtx) doInstr(in ssa.Instruction) {
 	}
 }
 
+// allocEvent: the heap incarnations current just before an allocation; a
+// reference read from an unchanged heap variable predates the allocation.
+type allocEvent struct {
+	inc    map[string]string
+	epoch  int
+	before Term
+}
+
 func (fc *FnCtx) newRef() Term {
 	old := fc.lookup("alloc")
+	ev := &allocEvent{inc: map[string]string{}, epoch: fc.env.epoch, before: old}
+	for k, v := range fc.env.inc {
+		if fc.svHeap[k] {
+			ev.inc[k] = v
+		}
+	}
+	fc.allocEvents = append(fc.allocEvents, ev)
 	r := fc.freshConst("ref", SInt)
 	fc.assume(T(SBool, "(= %s (+ %s 1))", r.S, old.S))
 	fc.assign("alloc", r)
